@@ -316,12 +316,17 @@ impl Consume for SenderFlowState {
     /// does not have any effect. Thus, this IS cancel safe.
     async fn consume(&self, item: Self::Item) -> Self::Outcome {
         loop {
+            // Create the `Notified` future BEFORE checking the credit: `notify_waiters()` only
+            // wakes futures that already exist, so a flow that is applied between a failed
+            // credit check and a later call to `notified()` would otherwise be missed and the
+            // sender would wait until some other flow happens to arrive
+            let notified = self.notifier.notified();
             match consume_link_credit(&self.state().lock, item) {
                 Ok(outcome) => return outcome,
                 Err(_) => {
                     #[cfg(fe2o3_amqp_verif)]
                     crate::verif_facade::schedule_point();
-                    self.notifier.notified().await // **NOT** cancel safe
+                    notified.await // **NOT** cancel safe
                 }
             }
         }
